@@ -146,9 +146,11 @@ Inductive tbop :=
 | OGet (sig : nat)
 | OAwait (spec : list trig) (tick : bool)     (* await <trigger combination> / await ctx.tick(...).sample(...) *)
 | OUntil (spec : list trig)                   (* await ctx.tick(d).sample(...).until(cond): cond is the last element *)
-| ORepeat (spec : list trig) (count : nat).   (* await ctx.tick(d).sample(...).repeat(count) *)
+| ORepeat (spec : list trig) (count : nat)    (* await ctx.tick(d).sample(...).repeat(count) *)
+| OFor (spec : list trig) (count : nat)       (* async for clk, rst, vals.. in ctx.tick(d).sample(...): record; break after count *)
+| OCrit (b : bool).                           (* entering (true) / leaving (false) `with ctx.critical():` in a background testbench *)
 
-(* tb_mode: 0 between operations, 1 suspended in a one-shot await, 2 inside until, 3 inside repeat *)
+(* tb_mode: 0 between operations, 1 suspended in a one-shot await, 2 inside until, 3 inside repeat, 4 inside async for *)
 Record tbstate := TB { tb_run : bool; tb_ops : list tbop; tb_trig : tstate; tb_res : list Z;
                        tb_mode : Z; tb_cnt : nat; tb_critical : bool }.
 Definition no_tb : tbstate := TB false [] t_none [] 0 0 false.
@@ -336,6 +338,9 @@ Fixpoint tb_exec (ps : list proc) (orc : oracle) (sfuel : nat) (fuel : nat) (k :
         | OAwait spec _ :: _ => tb_put st k (wait_on t (fresh_trig spec true nowz) 1 0) []
         | OUntil spec :: _ => tb_put st k (wait_on t (fresh_trig spec false nowz) 2 0) []
         | ORepeat spec n :: _ => tb_put st k (wait_on t (fresh_trig spec false nowz) 3 n) []
+        | OFor spec n :: _ => tb_put st k (wait_on t (fresh_trig spec false nowz) 4 n) []
+        | OCrit b :: r =>
+            tb_exec ps orc sfuel f k (tb_put st k (TB (tb_run t) r (tb_trig t) (tb_res t) 0 (tb_cnt t) b) [])
         end
       else if t_broken (tb_trig t) then tb_put st k (finish_tb t) [[-7]]
       else
@@ -344,6 +349,12 @@ Fixpoint tb_exec (ps : list proc) (orc : oracle) (sfuel : nat) (fuel : nat) (k :
         if tb_mode t =? 1 then
           let tick := match tb_ops t with OAwait _ b :: _ => b | _ => false end in
           tb_exec ps orc sfuel f k (tb_put st k pop [-2 :: nowz :: (if tick then tick_fmt res else res)])
+        else if tb_mode t =? 4 then
+          (* async for: the body records the tick result; after `count` iterations it breaks out *)
+          match tb_cnt t with
+          | S (S m) => tb_put st k (wait_on t (rewait (tb_trig t)) 4 (S m)) [-2 :: nowz :: tick_fmt res]
+          | _ => tb_exec ps orc sfuel f k (tb_put st k pop [-2 :: nowz :: tick_fmt res])
+          end
         else
           match tick_fmt res with
           | c :: r :: vs =>
@@ -491,3 +502,147 @@ Definition init_tb (ops : list tbop) : tbstate := TB true ops t_none [] 0 0 true
 
 Definition init_state (inits : list Z) (pst : list pstate) (tbs : list (list tbop)) : estate :=
   ES (init_slots inits) pst (map init_tb tbs) 0 0 [].
+
+(* ====================================================================================================================
+   Appended (audit follow-up).  Nothing above is changed by what follows.
+   ==================================================================================================================== *)
+
+(* ---------- Period(unit=value).femtoseconds for integer values (hdl/_time.py) ---------- *)
+(* unit: 0 s, 1 ms, 2 us, 3 ns, 4 ps, 5 fs (value * 10^k); 6 Hz, 7 kHz, 8 MHz, 9 GHz (round(10^k / value)).
+   Python's round() of the float quotient is round-half-to-even; exact while the quotient stays below 2^52. *)
+Definition round_half_even (n d : Z) : Z :=
+  let q := n / d in
+  let r := n mod d in
+  if 2 * r <? d then q else if d <? 2 * r then q + 1 else if Z.even q then q else q + 1.
+
+Definition period_fs (unit : nat) (v : Z) : Z :=
+  match unit with
+  | 0%nat => v * 1000000000000000
+  | 1%nat => v * 1000000000000
+  | 2%nat => v * 1000000000
+  | 3%nat => v * 1000000
+  | 4%nat => v * 1000
+  | 5%nat => v
+  | 6%nat => round_half_even 1000000000000000 v
+  | 7%nat => round_half_even 1000000000000 v
+  | 8%nat => round_half_even 1000000000 v
+  | _ => round_half_even 1000000 v
+  end.
+
+(* ---------- ctx.tick(domain) lowered to a trigger combination (TickTrigger._collect_trigger) ---------- *)
+Record domdesc := DD { dd_clk : nat; dd_pos : bool; dd_rst : option nat; dd_async : bool }.
+
+Definition tick_spec (d : domdesc) (samples : list nat) : list trig :=
+  match dd_async d, dd_rst d with
+  | true, Some r =>      (* .edge(clk, pol).edge(rst, 1).sample(rst).sample( *sampled ) *)
+      TEdge (dd_clk d) 0 (dd_pos d) :: TEdge r 0 true :: TSample r :: map TSample samples
+  | _, _ =>              (* .edge(clk, pol).sample(Const(0)).sample(Const(0) if rst is None else rst).sample( *sampled ) *)
+      TEdge (dd_clk d) 0 (dd_pos d) :: TConst 0 ::
+      (match dd_rst d with Some r => TSample r | None => TConst 0 end) :: map TSample samples
+  end.
+
+(* until(cond): the condition is sampled last *)
+Definition until_spec (d : domdesc) (samples : list nat) (cond : nat) : list trig := tick_spec d (samples ++ [cond]).
+
+(* ---------- background testbenches, run_until ---------- *)
+Definition init_tb_bg (x : bool * list tbop) : tbstate := TB true (snd x) t_none [] 0 0 (negb (fst x)).
+Definition init_state_bg (inits : list Z) (pst : list pstate) (tbs : list (bool * list tbop)) : estate :=
+  ES (init_slots inits) pst (map init_tb_bg tbs) 0 0 [].
+
+(* Simulator.run_until(deadline): `while now < deadline: advance()` whatever is critical *)
+Fixpoint run_until (ps : list proc) (orc : oracle) (sfuel tfuel : nat) (deadline : Z) (fuel : nat) (st : estate) : estate :=
+  match fuel with
+  | O => st
+  | S f => if e_now st <? deadline
+           then run_until ps orc sfuel tfuel deadline f (fst (advance ps orc sfuel tfuel st))
+           else st
+  end.
+
+(* ---------- a compiled synchronous process of a domain with ASYNCHRONOUS reset (after repo commit 574e1db) ----------
+   Two wakers: clock_edge_waker (sets process.clk_edge) and edge_waker(rst, 1).  run(): `if not process.clk_edge:` load
+   the reset values of the resettable driven signals with their masks and return; else clear the flag and run as a
+   synchronous process.  The flag is modelled by a multi-shot trigger [clk edge; rst rise] owned by the process (its
+   hit flags are exactly `clk_edge` / "woken by rst"): woken in phase 1a, run in 1b of the delta after the commit. *)
+Definition arst_spec (clk : nat) (pos : bool) (rst : nat) : list trig := [TEdge clk 0 pos; TEdge rst 0 true].
+
+Definition rtl_sync_arst (tab : sigtab) (n : nat) (ss : list stmt) (clk : nat) (pos : bool) (rst : nat) : proc :=
+  P (fun _ _ _ => false) (arst_spec clk pos rst)
+    (fun _ res cu nx =>
+       let m := stmts_mask ss in
+       if hd 0 res =? 0 then
+         PR [] (flat_map (fun i => if (m i =? 0) || sd_reset_less (tab i) then []
+                                   else [W i (sd_init (tab i)) (update_mask (sd_shape (tab i)) (m i))]) (seq 0 n)) None
+       else
+         let nx1 := exec_rtl_list (env_of_list cu) ss (env_of_list nx) in
+         let rst_on := negb (Z.land 1 (nth rst cu 0) =? 0) in
+         let nx2 : env := fun i => if rst_on && negb (m i =? 0) && negb (sd_reset_less (tab i))
+                                   then sd_init (tab i) else nx1 i in
+         PR [] (rtl_writes tab n m nx2) None).
+(* such a process is never runnable at time 0; its trigger exists from the start *)
+Definition arst_pstate (clk : nat) (pos : bool) (rst : nat) : pstate :=
+  PS false [] None (fresh_trig (arst_spec clk pos rst) false 0) [] false.
+
+(* ---------- memories (hdl/_mem.py MemoryInstance compiled by _FragmentCompiler; _PyMemoryState) ----------
+   Row a of the memory is slot base + a: `data[a]` is its curr, `write_queue[a]` its next, membership of the memory in
+   `pending` the union of the rows' pending bits; a row commits like a signal (changed iff data != queued value).
+   _PyMemoryState.write(addr, value, mask): ignored when addr is out of range; read(addr): 0 when out of range. *)
+Record wport := WP { wp_addr : expr; wp_data : expr; wp_en : expr }.     (* wp_en = Cat(bit.replicate(granularity) ...) *)
+Record rport := RP { rp_addr : expr; rp_en : expr; rp_data : nat; rp_transp : list nat }.
+
+Definition mem_read (base depth : nat) (cu : list Z) (a : Z) : Z :=
+  if (0 <=? a) && (a <? Z.of_nat depth) then nth (base + Z.to_nat a) cu 0 else 0.
+
+Definition full_mask (sh : shape) : Z := update_mask sh (Z.shiftl 1 (width sh) - 1).
+
+Definition is_row (base depth i : nat) : bool := Nat.leb base i && Nat.ltb i (base + depth).
+
+(* comb read ports: woken by the address inputs and by every commit of the memory (memory_waker) *)
+Definition mem_comb (base depth : nat) (rowsh : shape) (rports : list rport) (inputs : list nat) : proc :=
+  P (fun i _ _ => existsb (Nat.eqb i) inputs || is_row base depth i) []
+    (fun _ _ cu _ =>
+       let en := env_of_list cu in
+       PR [] (map (fun rp =>
+                     let a := rmask (ewidth (rp_addr rp)) (eval_rtl en (rp_addr rp)) in
+                     W (rp_data rp) (rsign rowsh (mem_read base depth cu a)) (full_mask rowsh)) rports) None).
+
+(* write ports (in port order), then synchronous read ports with their transparency patches *)
+Definition mem_sync (base depth : nat) (rowsh : shape) (clk : nat) (pol : Z) (wports : list wport) (rports : list rport) : proc :=
+  P (fun i _ nn => Nat.eqb i clk && (nn =? pol)) []
+    (fun _ _ cu _ =>
+       let en := env_of_list cu in
+       let dw := width rowsh in
+       let wvals := map (fun wp => (rmask (ewidth (wp_addr wp)) (eval_rtl en (wp_addr wp)),
+                                    rmask dw (eval_rtl en (wp_data wp)),
+                                    rmask dw (eval_rtl en (wp_en wp)))) wports in
+       let ww := flat_map (fun x => match x with (a, d, e) =>
+                            if (0 <=? a) && (a <? Z.of_nat depth)
+                            then [W (base + Z.to_nat a) (norm rowsh d) (update_mask rowsh e)] else [] end) wvals in
+       let rr := flat_map (fun rp =>
+                   if Z.land 1 (eval_rtl en (rp_en rp)) =? 0 then []
+                   else
+                     let a := rmask (ewidth (rp_addr rp)) (eval_rtl en (rp_addr rp)) in
+                     let d0 := mem_read base depth cu a in
+                     let d := fold_left (fun d j => match nth j wvals (0, 0, 0) with (wa, wd, we) =>
+                                           if a =? wa then Z.lor (Z.land d (Z.lnot we)) (Z.land wd we) else d end)
+                                        (rp_transp rp) d0 in
+                     [W (rp_data rp) (rsign rowsh d) (full_mask rowsh)]) rports in
+       PR [] (ww ++ rr) None).
+
+(* ---------- user processes iterating an arbitrary trigger combination ----------
+   async for res in <spec>:                       (res bound position-wise to the pseudo-signals `binds`)
+       for (out, f) in outs: new[out] = f(res, acc)   -- all f evaluated on the old accumulators
+       acc = new; ctx.set(out, acc[out]) for every out
+   covers edge-wait loops, periodic `ctx.delay(..)` loops and processes with several outputs *)
+Fixpoint zip_bind (ks : list nat) (vs : list Z) (e : env) : env :=
+  match ks, vs with
+  | k :: ks', v :: vs' => zip_bind ks' vs' (fun j => if Nat.eqb j k then v else e j)
+  | _, _ => e
+  end.
+
+Definition user_gen (spec : list trig) (binds : list nat) (outs : list (nat * shape * expr)) : proc :=
+  P (fun _ _ _ => false) spec
+    (fun local res _ _ =>
+       let e0 := zip_bind (map (fun o => fst (fst o)) outs) local (fun _ => 0) in
+       let e := zip_bind binds res e0 in
+       let vals := map (fun o => norm (snd (fst o)) (denote e (snd o))) outs in
+       PR vals (map (fun ov => W (fst (fst (fst ov))) (snd ov) (-1)) (combine outs vals)) None).
